@@ -262,3 +262,119 @@ Example C08_source_example :
                            (UtilGen.construct s_alg2 (Some 0) (Some (1, 0, 0)%Z), 1)]
                           s_alg [0]) = [0].
 Proof. vm_compute. repeat split; try reflexivity. discriminate. Qed.
+
+(* ---- histories with REFUSED catalogue-table writes ---------------------------------------
+   Model/StoreFault.v: the file system refuses the k-th write to one of the
+   five name tables during a client call (OSError), the database process
+   carries on.  A history is a list of client calls `(w, ops)`: `ops` the
+   operations of the call (one per value for an _update / _load), `w` the
+   fault armed for it (0 = none, k = the k-th table write of the call raises;
+   the call ends there).  util.append writes the table FIRST and extends the
+   in-memory index afterwards; `run_f` is that order, `run_e` the order of
+   seeded change C08-4 (index first).  `chained c key` (Proofs/CatalogueProofs.v)
+   is the conclusion of C08_chain: every id of the key is in range and the
+   rows are linked by their parent ids. *)
+From DV Require Import Model.StoreFault Proofs.StoreFaultProofs.
+
+Theorem C08_catalogue_inv_faults : forall digest gs x,
+  Forall plain_group gs ->
+  let c := dcat (run_f digest db0 gs) in
+  (forall nm i, alookup nm (tb c x) = Some i <-> nth_error (ix c x) i = Some nm) /\
+  NoDup (ix c x) /\ NoDup (map fst (tb c x)) /\
+  map snd (tb c x) = seq 0 (length (ix c x)) /\
+  indexed (tb c x) = ix c x /\ reopen c = c /\
+  (forall key b, In (key, b) (prime c) -> chained c key).
+Proof.
+  intros digest gs x Hp c.
+  destruct (SF_run digest gs db0 (SF_Iall0 digest) Hp) as [[(Hw & _ & Hch) _] _].
+  destruct (Hw x) as [Hi _]. fold c in Hw, Hi, Hch.
+  split; [intros nm i; now apply CP_lookup_index|].
+  split; [apply Hi|]. split; [eapply CP_keys_nodup; eauto|].
+  split; [eapply CP_ids_gap_free; eauto|].
+  split; [now apply CP_indexed|]. split; [now apply SP_reopen_same|exact Hch].
+Qed.
+Print Assumptions C08_catalogue_inv_faults.
+
+Theorem C08_ids_never_reassigned_faults : forall digest gs gs' x i nm,
+  Forall plain_group gs -> Forall plain_group gs' ->
+  nth_error (ix (dcat (run_f digest db0 gs)) x) i = Some nm ->
+  nth_error (ix (dcat (run_f digest db0 (gs ++ gs'))) x) i = Some nm.
+Proof.
+  intros digest gs gs' x i nm Hp Hp' H. unfold run_f, run_g. rewrite fold_left_app.
+  destruct (SF_run digest gs db0 (SF_Iall0 digest) Hp) as [HA _].
+  destruct (SF_run digest gs' _ HA Hp') as [_ X].
+  eapply CP_ext_nth; eauto.
+Qed.
+Print Assumptions C08_ids_never_reassigned_faults.
+
+(* the refused call: it answers with the exception (reply None), the primary
+   table, the store and the staging area are as before, every row that was
+   registered keeps its id (the rows the call appended before the refused
+   write stay as well) *)
+Theorem C08_refused_call_keeps_registered : forall digest gs w o d' w',
+  Forall plain_group gs -> plain_op o ->
+  let d := run_f digest db0 gs in
+  exec_g append_f digest w d o = (d', None, w') ->
+  prime (dcat d') = prime (dcat d) /\ store d' = store d /\ stage d' = stage d /\
+  forall x i nm, nth_error (ix (dcat d) x) i = Some nm ->
+                 nth_error (ix (dcat d') x) i = Some nm.
+Proof.
+  intros digest gs w o d' w' Hp Ho d H.
+  destruct (SF_run digest gs db0 (SF_Iall0 digest) Hp) as [[HI _] _].
+  destruct (SF_exec_cases digest _ _ _ _ _ _ HI Ho H) as [(rep & E & _)|(_ & S & G & _ & P & X)];
+    [discriminate|].
+  split; [exact P|]. split; [exact S|]. split; [exact G|].
+  intros x i nm Hn. eapply CP_ext_nth; eauto.
+Qed.
+Print Assumptions C08_refused_call_keeps_registered.
+
+(* refused on the first new row: nothing at all changed (no id is burnt) *)
+Theorem C08_refused_add_changes_nothing : forall digest d tn,
+  alookup tn (t_target (dcat d)) = None ->
+  exec_g append_f digest 1 d (OAdd tn) = (d, None, 0).
+Proof. exact SF_refused_add. Qed.
+Print Assumptions C08_refused_add_changes_nothing.
+
+(* with nothing armed the extended model is the model of the theorems above *)
+Theorem C08_faults_conservative : forall digest gss d,
+  run_f digest d (map (fun ops => (0, ops)) gss) = run digest d (concat gss).
+Proof. exact SF_run_0. Qed.
+Print Assumptions C08_faults_conservative.
+
+(* why the order matters: with the index extended BEFORE the table write
+   (seeded change C08-4) a refused write followed by the retry of the same
+   update leaves a duplicate in the index, a table whose ids are not 0..n-1, an
+   index that close/reopen does not rebuild, and a primary key whose
+   algorithm id is out of range after the reopen *)
+Theorem C08_catalogue_inv_faults_refuted : exists gs x,
+  Forall plain_group gs /\
+  let c := dcat (run_e idig db0 gs) in
+  ~ NoDup (ix c x) /\
+  map snd (tb c x) <> seq 0 (length (tb c x)) /\
+  indexed (tb c x) <> ix c x /\ reopen c <> c /\
+  exists key b, In (key, b) (prime c) /\ ~ chained (reopen c) key.
+Proof. exists early_witness, Talg. split; [exact SF_early_plain|exact SF_early_broken]. Qed.
+Print Assumptions C08_catalogue_inv_faults_refuted.
+
+(* non-vacuity: a plain history in which writes ARE refused (third write of an
+   update, first write of an add, fourth write of a two-value update), retried,
+   closed and reopened *)
+Definition ex_faults : list fgroup :=
+  [(3, [OUpd 3 [84] (ex_id s_alg) 7 None]);
+   (1, [OAdd [85]]);
+   (0, [OUpd 3 [84] (ex_id s_alg) 7 None]);
+   (4, [OUpd 4 [85] (ex_id s_alg2) 8 None; OUpd 4 [85] (ex_id s_alg2) 9 None]);
+   (0, [OReopen]); (0, [OAdd [85]])].
+
+Example C08_example_faults :
+  Forall plain_group ex_faults /\
+  let c := dcat (run_f idig db0 ex_faults) in
+  lens c = [2; 1; 2; 2; 1] /\ map fst (prime c) = [(3%Z, 0, 0, 0, 0, 0)] /\
+  map (fun g => refused (snd (fst (exec_group_g append_f idig (fst g) db0 (snd g)))))
+      (firstn 2 ex_faults) = [true; true].
+Proof.
+  split.
+  - unfold ex_faults, plain_group. repeat (apply Forall_cons || apply Forall_nil);
+      cbn; unfold plain_id, plain; cbn; intuition discriminate.
+  - vm_compute. repeat split; reflexivity.
+Qed.
